@@ -260,8 +260,15 @@ def build_harness(name, profile="release", cfg=True):
     hdir = os.path.join(ROOT, "harness", name)
     lock = os.path.join(hdir, "Cargo.lock")
     src_lock = os.path.join(REPO, "Cargo.lock")
-    if not os.path.exists(lock):
+    # the harness links what /repo's lock file names: follow it on every run (a dependency bump in /repo must reach the
+    # differential), remembering which /repo lock the harness lock was derived from
+    stamp = lock + ".from"
+    cur = hashlib.sha256(open(src_lock, "rb").read()).hexdigest() if os.path.exists(src_lock) else "none"
+    old = open(stamp).read().strip() if os.path.exists(stamp) else None
+    if (not os.path.exists(lock) or old != cur) and os.path.exists(src_lock):
         shutil.copy(src_lock, lock)
+        with open(stamp, "w") as f:
+            f.write(cur + "\n")
     tdir = os.path.join(BUILD, "cargo-" + name)
     env = dict(ENV)
     env["CARGO_TARGET_DIR"] = tdir
